@@ -304,7 +304,7 @@ func encByte(rng *rand.Rand, c byte) string {
 
 func oracleC11(c *oracleCfg) *report {
 	r := newReport("C11", "for every generated HTML input without a case variant of [CDATA[: upper, lower, alternating and random case re-assignments must keep IsXSS; for every context and every position strictly inside a tag-name or attribute-name token: inserting NUL must keep that context's verdict; non-trivial = input has a letter and a name token")
-	parallel(c.stream("hx"), func(s string) {
+	checkCase := func(s string) {
 		x0, st := li.VerifIsXSS(s)
 		if st != "" {
 			return
@@ -349,6 +349,35 @@ func oracleC11(c *oracleCfg) *report {
 				}
 			}
 		}
+	}
+	// vectors whose verdict hinges on a character reference (the `x` of `&#x..;` and the hex digits
+	// are letters too): each scheme, each position, hex and decimal, in URL attributes
+	{
+		rng := rand.New(rand.NewSource(c.seed*61 + 9))
+		for _, sc := range []string{"javascript:", "vbscript:", "data:", "view-source:"} {
+			for pos := 0; pos < len(sc); pos++ {
+				for _, enc := range []string{fmt.Sprintf("&#x%x;", sc[pos]), fmt.Sprintf("&#x%x", sc[pos]), fmt.Sprintf("&#%d;", sc[pos]), fmt.Sprintf("&#x00%x;", sc[pos])} {
+					u := sc[:pos] + enc + sc[pos+1:] + "alert(1)"
+					for _, w := range []string{"<a href=\"" + u + "\">", "<img src=" + u + ">", "x\" formaction=\"" + u, "<form action='" + u + "'>"} {
+						checkCase(w)
+						r.eval(w, true)
+					}
+				}
+			}
+			k := 150
+			if c.thorough() {
+				k = 3000
+			}
+			for i := 0; i < k; i++ {
+				u := encodeSchemeStrict(rng, sc) + "x"
+				w := "<a href=\"" + u + "\">"
+				checkCase(w)
+				r.eval(w, true)
+			}
+		}
+	}
+	parallel(c.stream("hx"), func(s string) {
+		checkCase(s)
 		names := 0
 		for ctx := 0; ctx < 5; ctx++ {
 			toks, st := li.VerifH5Tokens(s, ctx)
@@ -373,7 +402,7 @@ func oracleC11(c *oracleCfg) *report {
 				}
 			}
 		}
-		r.eval(s, hasLetter && names > 0)
+		r.eval(s, strings.IndexFunc(s, func(c rune) bool { return c < 128 && isLetter(byte(c)) }) >= 0 && names > 0)
 	})
 	return r
 }
